@@ -3,6 +3,7 @@ import ReplicatProofs.Lemmas.RepoCrash
 import ReplicatProofs.Lemmas.RepoConcSeq
 import ReplicatProofs.Lemmas.RepoConcRestore
 import ReplicatProofs.Lemmas.RepoConcSched
+import ReplicatProofs.Lemmas.RepoListing
 /-!
 # C02 — no history of snapshot / delete / clean ever damages a remaining snapshot
 
@@ -278,6 +279,109 @@ theorem restore_spanning_concurrent_snapshots (enc : Bool) (s : Store) (cmds : L
   obtain ⟨trc, stc, hrun, heq⟩ := hlater c
   rw [← heq]
   exact chunkLe_run hok hrun
+
+/-! ## destructive commands over a listing that fails or is silently partial (`ReplicatModel/RepoListing.lean`)
+
+`delete_snapshots` / `clean` compute what they keep from `backend.list_files`.  The listing is a step of its own: under a scan
+fault (`ScanFault`: the top directory of an area, a directory below it, an iteration part-way, the backend's call) the command
+either gets an ERROR or a shorter *view*, depending on whether every layer lets the error through (`ListFlags`, extracted from
+the source on every run as `ListFlags.gen`).  Decisions are taken on the view, deletions hit the real object map. -/
+
+/-- **Complete-or-error listing ⇒ safe, over whole histories.**  If every layer lets a scan error through (`F.safe`), then any
+history of snapshots, deletes and cleans by any users, EACH under an arbitrary listing fault of its own, keeps the repository
+consistent: a command whose listing fails stops before its first deletion. -/
+theorem consistent_under_listing_faults (F : ListFlags) (hF : F.safe = true) (enc : Bool) (s : Store)
+    (ops : List (Op × Option ScanFault)) (h : Consistent enc s) (hops : ∀ p ∈ ops, OpOk enc p.1) :
+    Consistent enc (runL F enc s ops) := by
+  unfold runL
+  induction ops generalizing s with
+  | nil => exact h
+  | cons p ops ih =>
+    simp only [foldl_cons]
+    exact ih _ (stepL_safe_consistent hF p.2 h (hops p (by simp))) (fun o ho => hops o (mem_cons_of_mem _ ho))
+
+/-- **The property under listing faults.**  With a complete-or-error listing, a snapshot object that is still stored after a
+command that ran under ANY listing fault restores exactly with its owner's key, whatever the command's outcome. -/
+theorem stored_snapshot_restores_after_listing_fault (F : ListFlags) (hF : F.safe = true) (enc : Bool) (s : Store) (op : Op)
+    (flt : Option ScanFault) (u : User) (f : Fam) (sid : Nat) (b : Body) (fre : Nat → Bool)
+    (h : Consistent enc s) (hop : OpOk enc op) (hu : UserOk enc u)
+    (hg : get (stepL F enc flt s op) (.snap f sid) = some (.snap f sid b))
+    (hv : visible enc u f = true) (hr : (!enc || b.owner == u.key) = true) :
+    restore enc u (fun x => x == sid) fre (stepL F enc flt s op) = .ok (b.files.filter (fun fr => fre fr.path)) :=
+  restore_listed_exact enc u _ f sid b fre (stepL_safe_consistent hF flt h hop) hu hg hv hr
+
+/-- **The source tree as extracted on this run**: a directory below the top directory of an area that cannot be scanned
+(`os.scandir` raises EACCES / EIO / ESTALE / ENOENT), an iteration that fails part-way, or a backend whose listing raises, makes
+`delete_snapshots` / `clean` fail before the first deletion — the walk of `Local.list_files` (`iterative_scandir`), `list_files`
+itself and `Repository._aiter` / `_load_snapshots` / `clean` let the error through (the three extracted flags are discharged by
+`decide`; a handler that swallows the error anywhere on that path breaks this proof).
+`_partial`: the fault is not at the TOP directory of the area — see `top_directory_swallow_damages` for what happens there. -/
+theorem local_listing_fault_safe_partial (enc : Bool) (s : Store) (op : Op) (flt : Option ScanFault)
+    (hk : ∀ f, flt = some f → f.kind.isTop = false) (h : Consistent enc s) (hop : OpOk enc op) :
+    Consistent enc (stepL ListFlags.gen enc flt s op) := by
+  rw [stepL_notTop enc flt hk]
+  exact stepL_safe_consistent (by decide) flt h hop
+
+/-- `delete_snapshots` is safe under EVERY listing fault of the extracted source tree, the top directory included: an emptied
+snapshot listing makes it refuse ("not available") or leaves it nothing to do. -/
+theorem local_delete_any_listing_fault_safe (enc : Bool) (s : Store) (u : User) (sids : List Nat) (flt : Option ScanFault)
+    (h : Consistent enc s) (hu : UserOk enc u) :
+    Consistent enc (stepL ListFlags.gen enc flt s (.delete u sids)) := by
+  cases flt with
+  | none => exact local_listing_fault_safe_partial enc s (.delete u sids) none (fun f hf => by cases hf) h hu
+  | some f =>
+    obtain ⟨fa, fk⟩ := f
+    cases fk with
+    | top =>
+      rcases delete_top_fault ListFlags.gen enc u sids fa s with e | e <;> rw [e]
+      · exact h
+      · exact step_consistent h hu
+    | walkOpen l => exact local_listing_fault_safe_partial enc s (.delete u sids) _ (fun f hf => by cases hf; rfl) h hu
+    | walkIter l => exact local_listing_fault_safe_partial enc s (.delete u sids) _ (fun f hf => by cases hf; rfl) h hu
+    | raises l => exact local_listing_fault_safe_partial enc s (.delete u sids) _ (fun f hf => by cases hf; rfl) h hu
+
+/-- **A sub-listing is not enough (delete).**  Negation witness for a walk that skips a directory it cannot scan
+(`walkOpen = false`): owner ⟨1,1⟩ and shared-key user ⟨2,1⟩ hold snapshots 100 and 101 that share chunk 11; the directory of
+snapshot 100 cannot be scanned while ⟨2,1⟩ deletes 101: the keep-set misses 100, chunk 11 is deleted, snapshot 100 is still
+stored and no longer restores.  With the error let through the same command changes nothing. -/
+theorem sublisting_delete_damages :
+    let s := run true initStore [.snapshot ⟨1, 1⟩ [10, 11] [⟨1, 1, [10, 11]⟩] 1 100, .snapshot ⟨2, 1⟩ [11, 12] [⟨1, 2, [11]⟩, ⟨2, 3, [12]⟩] 2 101]
+    let flt : ScanFault := ⟨.snaps, .walkOpen (fun n => n == .snap 1 100)⟩
+    let s' := stepL ⟨false, true, true, false⟩ true (some flt) s (.delete ⟨2, 1⟩ [101])
+    Consistent true s ∧
+    (restore true ⟨1, 1⟩ (fun x => x == 100) (fun _ => true) s).toOption = some [⟨1, 1, [10, 11]⟩] ∧
+    get s' (.snap 1 100) = get s (.snap 1 100) ∧ (get s' (.snap 1 100)).isSome = true ∧ get s' (.chunk 1 11) = none ∧
+    (restore true ⟨1, 1⟩ (fun x => x == 100) (fun _ => true) s').toOption = none ∧
+    stepL ⟨true, true, true, false⟩ true (some flt) s (.delete ⟨2, 1⟩ [101]) = s := by
+  refine ⟨?_, by decide +kernel, by decide +kernel, by decide +kernel, by decide +kernel, by decide +kernel, by decide +kernel⟩
+  apply consistent_reachable true _ _ (consistent_init true)
+  intro op hop
+  simp only [mem_cons, not_mem_nil, or_false] at hop
+  rcases hop with rfl | rfl <;> simp [OpOk, UserOk]
+
+/-- **A sub-listing is not enough (clean).**  Same repository; ⟨2,1⟩ runs `clean` while the directory of snapshot 100 cannot be
+scanned and is skipped: chunk 10 (referenced by snapshot 100 only) is removed as an orphan. -/
+theorem sublisting_clean_damages :
+    let s := run true initStore [.snapshot ⟨1, 1⟩ [10, 11] [⟨1, 1, [10, 11]⟩] 1 100, .snapshot ⟨2, 1⟩ [11, 12] [⟨1, 2, [11]⟩, ⟨2, 3, [12]⟩] 2 101]
+    let flt : ScanFault := ⟨.snaps, .walkOpen (fun n => n == .snap 1 100)⟩
+    let s' := stepL ⟨false, true, true, false⟩ true (some flt) s (.clean ⟨2, 1⟩)
+    (get s' (.snap 1 100)).isSome = true ∧ get s' (.chunk 1 10) = none ∧ get s' (.chunk 1 11) = some (.chunk 1 11) ∧
+    (restore true ⟨1, 1⟩ (fun x => x == 100) (fun _ => true) s').toOption = none ∧
+    stepL ⟨true, true, true, false⟩ true (some flt) s (.clean ⟨2, 1⟩) = s := by
+  decide +kernel
+
+/-- **The top directory (true of model and code: finding D20).**  `Local.list_files` answers ANY `OSError` of the top-level
+`os.scandir(<repository>/snapshots)` with an empty listing (`topSwallow`; meant for a repository that has no such directory
+yet).  When that scan fails with EACCES / EIO / ESTALE, `clean` sees no snapshot at all and removes every chunk of its family
+while all snapshot objects stay stored.  With a handler for the missing directory only (`topSwallow = false`) nothing happens. -/
+theorem top_directory_swallow_damages :
+    let s := run true initStore [.snapshot ⟨1, 1⟩ [10, 11] [⟨1, 1, [10, 11]⟩] 1 100]
+    let flt : ScanFault := ⟨.snaps, .top⟩
+    let s' := stepL ⟨true, true, true, true⟩ true (some flt) s (.clean ⟨1, 1⟩)
+    (get s' (.snap 1 100)).isSome = true ∧ get s' (.chunk 1 10) = none ∧ get s' (.chunk 1 11) = none ∧
+    (restore true ⟨1, 1⟩ (fun x => x == 100) (fun _ => true) s').toOption = none ∧
+    stepL ⟨true, true, true, false⟩ true (some flt) s (.clean ⟨1, 1⟩) = s := by
+  decide +kernel
 
 /-! ## non-vacuity and the role of the unencrypted-repository convention -/
 
